@@ -130,8 +130,32 @@ static parsec_data_t *c_data_of_key(parsec_data_collection_t *d, parsec_data_key
 }
 static parsec_data_t *c_data_of(parsec_data_collection_t *d, ...) { va_list ap; va_start(ap, d); int k = va_arg(ap, int); va_end(ap); return c_data_of_key(d, (parsec_data_key_t)k); }
 
-/* ---------- completion callback ---------- */
-static int on_complete(parsec_taskpool_t *tp, void *data) { (void)tp; vf_e1_mark(2, (int)(intptr_t)data, 0); return 0; }
+/* ---------- taskpools, completion callbacks, scenario ---------- */
+static parsec_taskpool_t *tps[64], *compounds[64];
+static int ncompounds = 0, cb_next[64], ninner = 0;
+static parsec_taskpool_t *inner[256];
+static parsec_context_t *g_ctx; static parsec_data_collection_t *g_D;
+static int on_complete(parsec_taskpool_t *tp, void *data);
+static void new_tp(int i, int with_cb) {
+    tps[i] = vf_prog_new(i, g_D);
+    if (with_cb) parsec_taskpool_set_complete_callback(tps[i], on_complete, (void *)(intptr_t)i);
+}
+static int on_complete(parsec_taskpool_t *tp, void *data) {
+    int i = (int)(intptr_t)data; (void)tp;
+    vf_e1_mark(2, i, 0);
+    if (i >= 0 && i < 64 && cb_next[i]) { int j = cb_next[i] - 1; new_tp(j, 1); parsec_context_add_taskpool(g_ctx, tps[j]); }
+    return 0;
+}
+static int on_complete_compound(parsec_taskpool_t *tp, void *data) { (void)tp; vf_e1_mark(3, (int)(intptr_t)data, 0); return 0; }
+static const char *scenario_script(const char *sc, int ntp) {
+    static char buf[4096]; buf[0] = 0; char t[64];
+    if (strchr(sc, ':') || strchr(sc, ';')) return sc;          /* already a script */
+    if (!strcmp(sc, "together")) { for (int i = 0; i < ntp; i++) { snprintf(t, sizeof t, "add:%d;", i); strcat(buf, t); } strcat(buf, "start;wait"); }
+    else if (!strcmp(sc, "startfirst")) { strcat(buf, "start;"); for (int i = 0; i < ntp; i++) { snprintf(t, sizeof t, "add:%d;", i); strcat(buf, t); } strcat(buf, "wait"); }
+    else if (!strcmp(sc, "seq")) { for (int i = 0; i < ntp; i++) { snprintf(t, sizeof t, "add:%d;start;wait;", i); strcat(buf, t); } }
+    else { fprintf(stderr, "unknown scenario %s\n", sc); exit(3); }
+    return buf;
+}
 
 static void dump(void) {
     char fn[512]; snprintf(fn, sizeof fn, "%s/log.%d.bin", outdir, vf_rank);
@@ -216,23 +240,41 @@ int main(int argc, char **argv) {
 
     vf_phase = 1;
     int ntp = vf_prog_count();
-    parsec_taskpool_t *tps[64];
     if (ntp > 64) ntp = 64;
-    if (!strcmp(scenario, "together")) {
-        for (int i = 0; i < ntp; i++) { tps[i] = vf_prog_new(i, &D); parsec_taskpool_set_complete_callback(tps[i], on_complete, (void *)(intptr_t)i); parsec_context_add_taskpool(ctx, tps[i]); }
-        vf_phase = 2; parsec_context_start(ctx); parsec_context_wait(ctx); vf_e1_mark(1, -1, 0); vf_phase = 3;
-    } else if (!strcmp(scenario, "seq")) {
-        for (int i = 0; i < ntp; i++) {
-            tps[i] = vf_prog_new(i, &D); parsec_taskpool_set_complete_callback(tps[i], on_complete, (void *)(intptr_t)i);
-            parsec_context_add_taskpool(ctx, tps[i]); vf_phase = 2; parsec_context_start(ctx); parsec_context_wait(ctx); vf_e1_mark(1, i, 0); vf_phase = 1;
+    memset(tps, 0, sizeof tps);
+    g_ctx = ctx; g_D = &D;
+    /* scenario script: ops separated by ';' (see lib/e1suite.py SCENARIOS)
+     *   add:i            create taskpool i, set its completion callback, add it to the context
+     *   addc:i,j,k       compose taskpools i,j,k left-nested (callback on the compound only) and add
+     *   addr:i,j,k       same, right-nested
+     *   cbadd:i>j        arrange that the completion callback of taskpool i adds taskpool j
+     *   start | wait | test (poll parsec_context_test, then wait) | tpwait:i | tptest:i */
+    char *script = strdup(scenario_script(scenario, ntp));
+    for (char *op = strtok(script, ";"); op; op = strtok(NULL, ";")) {
+        if (!strncmp(op, "add:", 4)) { int i = atoi(op + 4); new_tp(i, 1); parsec_context_add_taskpool(ctx, tps[i]); }
+        else if (!strncmp(op, "addc:", 5) || !strncmp(op, "addr:", 5)) {
+            int idx[64], n = 0; for (char *q = op + 5; *q && n < 64; ) { idx[n++] = (int)strtol(q, &q, 10); if (*q == ',') q++; }
+            for (int k = 0; k < n; k++) new_tp(idx[k], 0);
+            parsec_taskpool_t *c = NULL;
+            if (op[3] == 'c') { c = tps[idx[0]]; for (int k = 1; k < n; k++) c = parsec_compose(c, tps[idx[k]]); }
+            else { c = tps[idx[n - 1]]; for (int k = n - 2; k >= 0; k--) { c = parsec_compose(tps[idx[k]], c); if (k > 0 && ninner < 256) inner[ninner++] = c; /* nested compounds are ours to free */ } }
+            if (n > 1 && ncompounds < 64) { parsec_taskpool_set_complete_callback(c, on_complete_compound, (void *)(intptr_t)ncompounds); compounds[ncompounds++] = c; }
+            else if (n == 1) parsec_taskpool_set_complete_callback(c, on_complete, (void *)(intptr_t)idx[0]);
+            parsec_context_add_taskpool(ctx, c);
         }
-    } else if (!strcmp(scenario, "startfirst")) {
-        vf_phase = 2; parsec_context_start(ctx);
-        for (int i = 0; i < ntp; i++) { tps[i] = vf_prog_new(i, &D); parsec_taskpool_set_complete_callback(tps[i], on_complete, (void *)(intptr_t)i); parsec_context_add_taskpool(ctx, tps[i]); }
-        parsec_context_wait(ctx); vf_e1_mark(1, -1, 0); vf_phase = 3;
-    } else { fprintf(stderr, "unknown scenario %s\n", scenario); return 3; }
+        else if (!strncmp(op, "cbadd:", 6)) { int i, j; if (sscanf(op + 6, "%d>%d", &i, &j) == 2 && i >= 0 && i < 64) cb_next[i] = j + 1; }
+        else if (!strcmp(op, "start")) { vf_phase = 2; vf_e1_mark(7, 0, 0); parsec_context_start(ctx); }
+        else if (!strcmp(op, "wait")) { parsec_context_wait(ctx); vf_e1_mark(1, -1, 0); vf_phase = 1; }
+        else if (!strcmp(op, "test")) { while (!parsec_context_test(ctx)) usleep(50); vf_e1_mark(6, -1, 0); }
+        else if (!strncmp(op, "tpwait:", 7)) { int i = atoi(op + 7); parsec_taskpool_wait(tps[i]); vf_e1_mark(4, i, 0); }
+        else if (!strncmp(op, "tptest:", 7)) { int i = atoi(op + 7); while (!parsec_taskpool_test(tps[i])) usleep(50); vf_e1_mark(5, i, 0); }
+        else { fprintf(stderr, "unknown scenario op %s\n", op); return 3; }
+    }
+    free(script);
     vf_phase = 3;
-    for (int i = 0; i < ntp; i++) vf_prog_free(i, tps[i]);
+    for (int i = 0; i < ntp; i++) if (tps[i]) vf_prog_free(i, tps[i]);
+    for (int i = 0; i < ncompounds; i++) parsec_taskpool_free(compounds[i]);
+    for (int i = 0; i < ninner; i++) parsec_taskpool_free(inner[i]);
     dump();
     hb_stop = 1; pthread_join(hb, NULL);
     for (int k = 0; k < vf_nk; k++) if (dts[k]) parsec_data_destroy(dts[k]);
